@@ -35,7 +35,7 @@ _CODE = None
 
 
 def gen_config(index: int, vseed: int, mode: str) -> dict:
-    """mode: 'module' | 'e2e' | 'fault'."""
+    """mode: 'module' | 'e2e' | 'fault' | 'e2efault' (import under a read fault, heal, import again)."""
     seed = core.run_seed(vseed, f"{PROP}-{mode}", index)
     rng = random.Random(seed)
     if mode == "module" and rng.random() < 0.5:
@@ -53,7 +53,7 @@ def gen_config(index: int, vseed: int, mode: str) -> dict:
                   "locale": locale, "faults": []},
            "iban_kind": iban["kind"], "check_seed": rng.getrandbits(32),
            "alt_orders": [[_shuffle(rng, iban["order"]), _shuffle(rng, bank["order"])] for _ in range(2)]}
-    if mode == "fault":
+    if mode in ("fault", "e2efault"):
         d = rng.choice(["iban_registry", "bank_registry"])
         js = regmodel.json_names(cfg["fs"][d])
         pos = rng.choice(["first", "middle", "last"])
@@ -289,6 +289,23 @@ def run_e2e_child(cfg: dict) -> dict:
     simfs.install(fs)
     if "schwifty" in sys.modules:
         raise core.HarnessError("end-to-end run needs a process that has not imported the package")
+    faults = cfg["fs"]["faults"]
+    res["fired"] = None
+    res["raised"] = None
+    if faults:
+        # "crash and restart with only durable state surviving": the import meets a read fault; whatever
+        # it leaves behind in the process (already imported submodules, their caches) survives into the
+        # retry after the fault has cleared.
+        fs.fault = dict(faults[0])
+        try:
+            core.import_tree(core.install_tree())
+            res["probes"]["import_succeeded_despite_fault"] = 1
+        except core.HarnessError:
+            raise
+        except BaseException as e:  # noqa: BLE001 - anything may be raised when a read fails
+            res["raised"] = type(e).__name__
+        res["fired"] = fs.fault_fired
+        fs.heal()
     try:
         schwifty = core.import_tree(core.install_tree())
     except core.HarnessError:
@@ -296,8 +313,12 @@ def run_e2e_child(cfg: dict) -> dict:
     except BaseException as e:  # noqa: BLE001
         if seam_bypassed(e, fs):
             raise core.HarnessError(f"storage seam bypassed: {e!r}") from e
-        res["violation"] = viol("e2e-import-failed", f"importing the package on a well-formed registry set raised "
-                                f"{type(e).__name__}: {e} (locale {cfg['fs']['locale']})", exc=type(e).__name__)
+        if faults:
+            res["violation"] = viol("not-healed-after-fault", f"after the {faults[0]['kind']} on {faults[0]['file']} cleared, importing the "
+                                    f"package again raised {type(e).__name__}: {e}", fault=faults[0]["kind"], registry="import")
+        else:
+            res["violation"] = viol("e2e-import-failed", f"importing the package on a well-formed registry set raised "
+                                    f"{type(e).__name__}: {e} (locale {cfg['fs']['locale']})", exc=type(e).__name__)
         return res
     from schwifty import exceptions, registry
 
@@ -305,10 +326,18 @@ def run_e2e_child(cfg: dict) -> dict:
     res["probes"]["default_encoding_open"] = fs.default_encoding_opens
     got_iban = regmodel.strip_regex(registry.get("iban"))
     d = regmodel.first_diff(want_iban, got_iban)
+    if d and faults:
+        res["violation"] = viol("not-healed-after-fault", f"after the {faults[0]['kind']} on {faults[0]['file']} cleared and the package was "
+                                f"imported again, the country table still is not the merge of all files: {d}", fault=faults[0]["kind"], registry="iban")
+        return res
     if d:
         res["violation"] = viol("iban-table-differs", f"effective country table is not the name-ordered deep merge: {d}")
         return res
     d = regmodel.first_diff(want_bank, registry.get("bank"))
+    if d and faults:
+        res["violation"] = viol("not-healed-after-fault", f"after the {faults[0]['kind']} on {faults[0]['file']} cleared and the package was "
+                                f"imported again, the bank list still is not the merge of all files: {d}", fault=faults[0]["kind"], registry="bank")
+        return res
     if d:
         res["violation"] = viol("bank-list-differs", f"effective bank list is not the name-ordered concatenation: {d}")
         return res
@@ -465,7 +494,7 @@ def run_e2e_child(cfg: dict) -> dict:
 # ---------------------------------------------------------------------------------------------
 
 
-CHILD = {"module": run_module_child, "fault": run_fault_child, "e2e": run_e2e_child}
+CHILD = {"module": run_module_child, "fault": run_fault_child, "e2e": run_e2e_child, "e2efault": run_e2e_child}
 
 
 def execute_config(cfg: dict) -> dict:
@@ -542,7 +571,7 @@ def worker_task(task: dict) -> dict:
         st["distinct"].add(h)
         if cp["multi_file"] and cp["conflicting_key"] and cp["listing_order_differs_from_sorted"]:
             st["nontrivial"].add(h)
-        if mode == "fault":
+        if mode in ("fault", "e2efault"):
             f = cfg["fs"]["faults"][0]
             if res["fired"]:
                 key = f"{res['fired']}@{f['position']}"
@@ -748,7 +777,7 @@ def main() -> int:
     ap.add_argument("--tier", default=os.environ.get("VERIF_TIER", "quick"), choices=["quick", "thorough"])
     ap.add_argument("--replay")
     ap.add_argument("--eval-config")
-    ap.add_argument("--runs", type=int, nargs=3, metavar=("MODULE", "E2E", "FAULT"))
+    ap.add_argument("--runs", type=int, nargs=4, metavar=("MODULE", "E2E", "FAULT", "E2EFAULT"))
     ap.add_argument("--fresh", type=int)
     ap.add_argument("--digests", action="store_true")
     ap.add_argument("--no-evidence", action="store_true")
@@ -766,16 +795,16 @@ def main() -> int:
     registry_code()
     vseed = core.verif_seed()
     print(f"VERIF_SEED={vseed} property={PROP} tier={args.tier} tree={core.src_dir()} workers={core.workers()}")
-    counts = args.runs or ([3000, 400, 600] if args.tier == "quick" else [600_000, 40_000, 100_000])
+    counts = args.runs or ([4000, 500, 800, 300] if args.tier == "quick" else [600_000, 40_000, 100_000, 20_000])
     nfresh = args.fresh if args.fresh is not None else (12 if args.tier == "quick" else 96)
     tasks = []
     deadline = runner.wall_cap(args.tier)
-    for mode, n in zip(("module", "e2e", "fault"), counts):
-        size = 100 if mode != "e2e" else 10
+    for mode, n in zip(("module", "e2e", "fault", "e2efault"), counts):
+        size = 100 if not mode.startswith("e2e") else 10
         for ch in runner.chunks(list(range(n)), size):
             tasks.append({"mode": mode, "indices": ch, "vseed": vseed, "digests": args.digests, "deadline": deadline})
     wp = isolate.Pool(core.workers())
-    agg = {"module": 0, "e2e": 0, "fault": 0, "violation_count": 0, "fs_events": 0}
+    agg = {"module": 0, "e2e": 0, "fault": 0, "e2efault": 0, "violation_count": 0, "fs_events": 0}
     probes: dict = {}
     faults: dict = {}
     fault_raised: dict = {}
@@ -830,7 +859,7 @@ def main() -> int:
         probes.setdefault(name, 0)
         if probes[name] == 0:
             print(f"warning: probe {name} never fired")
-    total = agg["module"] + agg["e2e"] + agg["fault"]
+    total = agg["module"] + agg["e2e"] + agg["fault"] + agg["e2efault"]
     cov = {
         "evaluations": total + fresh_checked,
         "distinct_nontrivial": len(nontrivial),
@@ -842,11 +871,13 @@ def main() -> int:
         "samples": samples[:3] or [{"note": "no multi-file sample"}],
         "distinct_configurations": len(distinct),
         "module_level_runs": agg["module"], "end_to_end_runs": agg["e2e"], "fault_runs": agg["fault"],
+        "end_to_end_import_under_fault_then_retry_runs": agg["e2efault"],
         "fresh_interpreter_runs_other_hashseed": fresh_checked,
         "fs_events": agg["fs_events"],
         "runs_per_hour": int((total + fresh_checked) / wall * 3600) if wall > 0 else 0,
         "seeds": {"verif_seed": vseed, "derivation": "sha256(f'{VERIF_SEED}:C18-<mode>:{i}')[:16]",
-                  "module_indices": [0, counts[0] - 1], "e2e_indices": [0, counts[1] - 1], "fault_indices": [0, counts[2] - 1]},
+                  "module_indices": [0, counts[0] - 1], "e2e_indices": [0, counts[1] - 1], "fault_indices": [0, counts[2] - 1],
+                  "e2efault_indices": [0, counts[3] - 1]},
         "simulated_time": "n/a (library has no clock; logical steps only)",
         "faults_fired": dict(sorted(faults.items())),
         "exceptions_raised_by_faulted_loads": fault_raised,
@@ -867,7 +898,7 @@ def main() -> int:
             "a loader that reaches storage by a route the stub does not serve is HARNESS-ERROR, not a verdict",
             "sampling, not enumeration",
         ], level="fault_enumeration")
-    print(f"C18 {args.tier}: module={agg['module']} e2e={agg['e2e']} fault={agg['fault']} fresh={fresh_checked} "
+    print(f"C18 {args.tier}: module={agg['module']} e2e={agg['e2e']} fault={agg['fault']} e2efault={agg['e2efault']} fresh={fresh_checked} "
           f"distinct={len(distinct)} nontrivial={len(nontrivial)} faults_fired={sum(faults.values())} "
           f"violations_seen={agg['violation_count']} unlisted_classes={unlisted} wall={wall:.1f}s")
     return core.EXIT_VIOLATION if unlisted else core.EXIT_OK
